@@ -408,6 +408,29 @@ def check_decode(ctx, data, cuts, end, tag, rbufsize=8192, expect=None,
                  split or ending != "clean-eof")
         _judge(ctx, "LengthLimitedFile", tag, frames, how, want, ending, end,
                data, cuts)
+    # smart HTTP with Transfer-Encoding: chunked: the same bytes, cut into
+    # HTTP chunks where the simulator cut the stream (so chunks end in LF, CR,
+    # hex digits, anything), reach the decoder through dulwich.web.ChunkReader
+    if end == "eof" and len(data) < 200000:
+        from dulwich.web import ChunkReader
+        enc = []
+        pos = 0
+        for c in cuts:
+            if c <= 0 or pos >= len(data):
+                continue
+            piece = data[pos:pos + c]
+            pos += len(piece)
+            enc.append(b"%x\r\n" % len(piece) + piece + b"\r\n")
+        if pos < len(data):
+            enc.append(b"%x\r\n" % (len(data) - pos) + data[pos:] + b"\r\n")
+        enc.append(b"0\r\n\r\n")
+        cr = ChunkReader(io.BytesIO(b"".join(enc)))
+        frames, how = dec_receivable(
+            type("S", (), {"recv": staticmethod(cr.read)})(), rbufsize)
+        ctx.case([dh, ch, end, "Chunked", rbufsize],
+                 split or ending != "clean-eof")
+        _judge(ctx, "ChunkReader", tag, frames, how, want, ending, end,
+               data, cuts)
     # the side-band demultiplexer over the same bytes: (channel, data) per
     # frame up to the first flush; a frame without a band byte is a protocol
     # error, never another exception
@@ -886,6 +909,18 @@ def run_caps(plan, ctx):
         elif got != [] or text != sha + b" " + ref:
             ctx.v("roundtrip-mismatch/ref-line-no-capabilities",
                   f"line={line!r} got={got} text={text!r}")
+        # a capability is name or name=value; only the first '=' separates
+        from dulwich.protocol import parse_capability
+        for c in caps:
+            name = c.replace(b"=", b"_")
+            if parse_capability(name) != (name, None):
+                ctx.v("roundtrip-mismatch/capability-without-value",
+                      f"{name!r} -> {parse_capability(name)!r}")
+            value = c + r.choice([b"", b"=", b"=1.0", b":refs/heads/a=b"])
+            got_c = parse_capability(name + b"=" + value)
+            if got_c != (name, value):
+                ctx.v("roundtrip-mismatch/capability-value",
+                      f"{name + b'=' + value!r} -> {got_c!r}")
         wl = b"want " + sha + (b" " + b" ".join(caps) if caps else b"")
         text, got = extract_want_line_capabilities(wl)
         if got != caps or text != b"want " + sha:
